@@ -47,6 +47,15 @@ def coeff_tensors(rng, n, kind):
         tk = rng.integers(-3, 4, size=(n, n)) * (rng.random((n, n)) < 0.4)
         vi = rng.integers(-2, 3, size=(n,) * 4) * (rng.random((n,) * 4) < 0.15)
         tk = tk.astype(float); vi = vi.astype(float)
+    elif kind == 'int_t':          # integer hopping matrix with a non-integer interaction (multiples of 1/2)
+        tk = rng.integers(-3, 4, size=(n, n))
+        vi = rng.integers(-5, 6, size=(n,) * 4) / 2.0
+    elif kind == 'real_t':         # real hopping matrix with a complex interaction
+        tk = rng.integers(-3, 4, size=(n, n)).astype(float)
+        vi = rng.integers(-2, 3, size=(n,) * 4) + 1j * rng.integers(-2, 3, size=(n,) * 4)
+    elif kind == 'cplx_t':         # complex hopping matrix with a real (integer dtype) interaction
+        tk = rng.integers(-2, 3, size=(n, n)) + 1j * rng.integers(-2, 3, size=(n, n))
+        vi = rng.integers(-2, 3, size=(n,) * 4)
     else:
         raise ValueError(kind)
     if not np.any(tk) and not np.any(vi):
@@ -68,7 +77,7 @@ def record_case(ptn, c):
     tk, vi = coeff_tensors(rng, n, kind)
     ctor = ptn.spin_molecular_hamiltonian_mpo if spin else ptn.molecular_hamiltonian_mpo
     terms = (fock.spinmol_terms if spin else fock.mol_terms)(tk, vi)
-    Href2 = 2 * fock.fock_matrix(terms, 2 * n if spin else n)
+    Href2 = 4 * fock.fock_matrix(terms, 2 * n if spin else n)          # 4 H: integer also for half-integer interactions
     tr = []
     if not nonzero_operator(Href2):
         return [dict(ev='flag', what='zero operator skipped', ok=True)]
@@ -76,8 +85,12 @@ def record_case(ptn, c):
     herm = bool(np.array_equal(Href2, Href2.conj().T))
     for opt in c['paths']:
         try:
-            mpo = ctor(tk, vi, optimize=opt)
-            H2 = 2 * np.asarray(mpo.as_matrix(sparse_format=(n >= 5)).toarray() if n >= 5 else mpo.as_matrix())
+            tk_in, vi_in = (tk.tolist(), vi.tolist()) if c.get('lists') else (tk.copy(), vi.copy())
+            mpo = ctor(tk_in, vi_in, optimize=opt)
+            if not c.get('lists'):
+                tr.append(dict(ev='flag', what='constructor modified its coefficient arrays', ok=bool(np.array_equal(tk_in, tk) and np.array_equal(vi_in, vi)
+                                                                                                 and tk_in.dtype == tk.dtype and vi_in.dtype == vi.dtype)))
+            H2 = 4 * np.asarray(mpo.as_matrix(sparse_format=(n >= 5)).toarray() if n >= 5 else mpo.as_matrix())
             dense[opt] = H2
             ok = bool(np.array_equal(np.rint(H2.real), Href2.real) and np.array_equal(np.rint(H2.imag), Href2.imag)
                       and np.max(np.abs(H2 - Href2), initial=0) < 1e-9)
@@ -120,6 +133,15 @@ def record_gauge(ptn, c):
     try:
         tk = rng.normal(size=(L, L)) + (1j * rng.normal(size=(L, L)) if c['cplx'] else 0)
         vi = rng.normal(size=(L,) * 4) + (1j * rng.normal(size=(L,) * 4) if c['cplx'] else 0)
+        ck = c.get('ckind', 'dense')
+        if ck in ('tridiag', 'tridiag_sparse_v'):        # nearest-neighbour hopping (exact zeros elsewhere)
+            tk = tk * (np.abs(np.subtract.outer(np.arange(L), np.arange(L))) <= 1)
+        if ck in ('sparse', 'tridiag_sparse_v'):
+            vi = vi * (rng.random((L,) * 4) < 0.3)
+        if ck == 'sparse':
+            tk = tk * (rng.random((L, L)) < 0.4)
+        if ck == 'diag_t':
+            tk = np.diag(np.diag(tk))
         u2 = unitary2(rng, c['ukind'])
         u = np.identity(L, dtype=complex)
         u[i:i + 2, i:i + 2] = u2
@@ -139,7 +161,7 @@ def record_gauge(ptn, c):
         Hg = g.as_matrix(sparse_format=True).toarray()
         Hr = hr.as_matrix(sparse_format=True).toarray()
         scale = max(1.0, float(np.max(np.abs(Hr))))
-        tr.append(dict(ev='flag', what=f'gauge matrices do not transform the explicit MPO into that of the rotated coefficients (L={L}, i={i}, u={c["ukind"]})',
+        tr.append(dict(ev='flag', what=f'gauge matrices do not transform the explicit MPO into that of the rotated coefficients (L={L}, i={i}, u={c["ukind"]}, coefficients {c.get("ckind", "dense")})',
                        ok=bool(np.max(np.abs(Hg - Hr)) <= 1e-9 * scale)))
     except BaseException as ex:  # noqa
         tr.append(dict(ev='raise', exc=f'{type(ex).__name__}: {str(ex)[:80]} (gauge L={L}, i={i})'))
@@ -172,12 +194,23 @@ def run(ctx):
                 paths = ([True] if n <= 3 else []) + ([False] if n >= 2 else [])
                 cases.append(dict(t='mol', n=n, spin=True, kind=kind, paths=paths, tlc=bool(n <= 2 and kind in ('dense', 'gauss', 'unit_v')),
                                   seed=int(rng.integers(1 << 30))))
+        for spin, nmax in ((False, 4), (True, 3)):
+            for n in range(1, nmax + 1):
+                for kind in ('int_t', 'real_t', 'cplx_t'):
+                    for lists in (False, True):
+                        paths = [True] + ([False] if (spin and n >= 2) or (not spin and n >= 4) else [])        # explicit path: L >= 4 resp. 2
+                        cases.append(dict(t='mol', n=n, spin=spin, kind=kind, paths=paths, tlc=False, lists=lists, seed=int(rng.integers(1 << 30))))
         for L in ([4, 6, 7] if ctx.quick else [4, 5, 6, 7, 8]):
             for i in range(L - 1):
                 for ukind in (['generic', 'rational'] if ctx.quick else ['real', 'rational', 'gauss', 'generic']):
                     if ctx.quick and L == 7 and i not in (0, 3, 4, 5):
                         continue
                     cases.append(dict(t='gauge', L=L, i=i, ukind=ukind, cplx=bool(rng.integers(2)), seed=int(rng.integers(1 << 30))))
+                # structured coefficients: the rotated partner is denser than the original
+                for ckind in (['tridiag', 'sparse'] if ctx.quick else ['tridiag', 'sparse', 'tridiag_sparse_v', 'diag_t']):
+                    if ctx.quick and L == 7 and i not in (0, 3, 4, 5):
+                        continue
+                    cases.append(dict(t='gauge', L=L, i=i, ukind='generic', ckind=ckind, cplx=bool(rng.integers(2)), seed=int(rng.integers(1 << 30))))
     traces = []
     for c in cases:
         traces.append(record_case(ptn, c) if c['t'] == 'mol' else record_gauge(ptn, c))
